@@ -327,6 +327,35 @@ template <class NS> static void families(bool thorough) {
     }
 }
 
+
+// ---- part A'': fan-in with draggers (the static solver's per-block constraint heaps) ----------------------------------------------
+// The static solver keeps, per block, pairing heaps of incoming/outgoing constraints whose keys go out of date when the block at the
+// other end moves; which entry hides which depends on the ORDER of the constraint vector and on the slacks.  Family: a target Y with
+// m incoming constraints, each from one of three sources {L, c, s} with a gap from {5, 8, 13, 14} -- EVERY sequence of m (source, gap)
+// pairs (the sequence is the order in the constraint vector; two constraints from one source are parallel constraints) -- a dragger
+// L <= q that pulls L to the left after Y's heap is built, a dragger Y <= Z that pulls Y to the left after that, and w <= Z to fix the
+// processing order; q and Z desired at three positions each; draggers placed first or last in the vector.  All systems are acyclic.
+static void fanin(int m, bool avoidToo) {
+    ctx.phase(mcx::fmt("fan-in with draggers: target with every sequence of %d incoming constraints from 3 sources x 4 gaps, 3x3 dragger positions, 2 vector layouts; static solve/satisfy and incremental solve", m));
+    const double gaps[4] = {5, 8, 13, 14}; const double qd[3] = {-2, 4, 12}, zd[3] = {7, 13, 25};
+    vector<int> idx(m, 0);
+    do {
+        if (ctx.stopped()) return; if (!ctx.next()) continue;
+        for (int qi = 0; qi < 3; qi++) for (int zi = 0; zi < 3; zi++) for (int layout = 0; layout < 2; layout++) {
+            Inst I; I.n = 7; I.w.assign(7, 1); I.sc.assign(7, 1); I.d = {-100, 10, 0, 0, 20, qd[qi], zd[zi]};   // 0 w, 1 L, 2 c, 3 s, 4 Y, 5 q, 6 Z
+            vector<SepC> fan; for (int k = 0; k < m; k++) fan.push_back({1 + idx[k] / 4, 4, gaps[idx[k] % 4], false});
+            if (layout == 0) { I.cs.push_back({1, 5, 0, false}); for (auto &c : fan) I.cs.push_back(c); I.cs.push_back({4, 6, 0, false}); I.cs.push_back({0, 6, 0, false}); }
+            else { I.cs.push_back({4, 6, 0, false}); I.cs.push_back({0, 6, 0, false}); for (auto &c : fan) I.cs.push_back(c); I.cs.push_back({1, 5, 0, false}); }
+            ctx.count("states"); ctx.count("nontrivial");
+            vector<double> opt; int nact = 0; bool haveOpt = oracle::qp_active_set(I.n, I.d, I.w, I.sc, I.cs, opt, &nact);
+            for (int kind : {2, 3, 0}) { Outcome o = run_instance<NSvpsc>(I, kind); judge(I, o, mcx::fmt("vpsc::%s.%s", kind < 2 ? "IncSolver" : "Solver", kind % 2 ? "satisfy" : "solve"), kind >= 2, kind % 2 == 0, true, false, false, haveOpt ? &opt : nullptr); }
+            if (avoidToo) { Outcome o = run_instance<NSavoid>(I, 0); judge(I, o, "Avoid::IncSolver.solve", false, true, true, false, false, haveOpt ? &opt : nullptr); }
+        }
+        ctx.sample(mcx::fmt("fan-in sequence #%d...", idx[0]), 1);
+        ctx.done_case();
+    } while (mcx::odo_next(idx, 12));
+}
+
 // ---- part B: histories on one live IncSolver --------------------------------------
 struct Op { int kind; int a; double v; SepC c; };   // 0 add c, 1 desired[a]:=v, 2 solve, 3 satisfy
 static string op_str(const Op &p) {
@@ -414,6 +443,7 @@ int main(int argc, char **argv) {
     resolves<NSvpsc>(3, 3, {-1, 0, 2}, 1); resolves<NSvpsc>(4, 4, {1}, 2); resolves<NSavoid>(3, 3, {0, 2}, 2);
     addresolves<NSvpsc>(3, 2, false); addresolves<NSavoid>(3, 2, false);
     families<NSvpsc>(T); families<NSavoid>(T);
+    fanin(3, true); fanin(4, false); if (T) { fanin(4, true); fanin(5, false); }
     histories<NSvpsc>(3, 3, 0, false);
     histories<NSvpsc>(3, 4, 0, false);
     histories<NSvpsc>(3, 4, 1, false);
